@@ -119,6 +119,7 @@ class World:
         self.backend_fired = []
         self.counts = {}  # (kind, name) -> total calls
         self.record = record
+        self.by_thread = None  # thread-sim: {(thread name, kind, name): calls}
         self.structural = []  # structural ops applied so far (for twins)
         self.mutations = []  # input-dictionary / preset mutations observed (C08 monitor)
         with self.active():
@@ -140,6 +141,9 @@ class World:
         n = self.calls_in_op.get(key, 0)
         self.calls_in_op[key] = n + 1
         self.counts[key] = self.counts.get(key, 0) + 1
+        if self.by_thread is not None:
+            t = threading.current_thread().name
+            self.by_thread[(t, kind, name)] = self.by_thread.get((t, kind, name), 0) + 1
         if self.record:
             self.log.add("call", self.op_index, kind, name, n, freeze(kw))
         exc = self.faults.get((self.op_index, kind, name, n))
